@@ -214,6 +214,17 @@ func subjects() []subject {
 			{"With", func(_ context.Context, o any) { o.(*adt.Synchronized[int]).With(func(int) {}) }},
 			{"String", func(_ context.Context, o any) { _ = o.(*adt.Synchronized[int]).String() }},
 		}},
+		// the callback of With / Using runs under the object's lock: two callbacks that
+		// mutate what the protected value refers to never overlap
+		{"adt.Synchronized(pointer)", []string{"fresh"}, func(pre string) any { v := 0; return adt.NewSynchronized(&v) }, []op{
+			{"With(mutate)", func(_ context.Context, o any) { o.(*adt.Synchronized[*int]).With(func(p *int) { *p = *p + 1 }) }},
+			{"Using(mutate)", func(_ context.Context, o any) {
+				s := o.(*adt.Synchronized[*int])
+				p := s.Get()
+				s.Using(func() { *p = *p + 1 })
+			}},
+			{"With(read)", func(_ context.Context, o any) { o.(*adt.Synchronized[*int]).With(func(p *int) { _ = *p }) }},
+		}},
 		{"adt.Once", []string{"fresh"}, func(pre string) any { return adt.NewOnce(func() int { return 1 }) }, []op{
 			{"Resolve", func(_ context.Context, o any) { _ = o.(*adt.Once[int]).Resolve() }},
 			{"Do", func(_ context.Context, o any) { o.(*adt.Once[int]).Do(func() int { return 2 }) }},
